@@ -15,7 +15,7 @@ import (
 
 func init() {
 	register("C12",
-		"ONCE: the whole effectful body of GoBackNConn.Close, ClientConn.Close and ServerConn.Close is the closure passed to sync.Once.Do. ORDER (gbn): close(quit) dominates everything else; the FIN is attempted on the leg where the peer has not closed, with a context from context.WithTimeout(g.ctx); no path leads from cancel() to the FIN send and every path to cancel() on that leg passes it; cancel() and sendQueue.stop() dominate wg.Wait(); every ticker Stop is dominated by wg.Wait(). EXIT: every potentially unbounded wait in gbn (blocking select, bare channel send/receive, WaitGroup.Wait, transport callback) has a termination alternative: a case on a quit field / ctx.Done() / a channel the parent closes on return whose body leaves the wait, or a timer; bare sends are on buffered channels outside cycles; Waits are dominated by the close that terminates the waited goroutines; transport callbacks receive g.ctx or a context derived from it and ctx/cancel come from one context.WithCancel; Send/Recv return errors on quit; the mailbox transport callbacks and their reconnect helpers poll the context parameter in every loop (returning leg) and pass exactly that context on; FIN receipt closes remoteClosed and returns an error; both loop wrappers call wg.Done() before an unconditional Close(). LIFE: every go statement in gbn is WaitGroup-tracked (Add before go, deferred Done, Wait in the owner's close path) or self-terminating by EXIT; every ticker/timer created is stopped on the close path (on the non-nil leg) or by a defer; a replaced ticker is stopped first. ONCE also: no return of any of the three Close methods is reachable without passing closeOnce.Do (no fast path that returns while a shutdown started elsewhere is still running). EXIT handshake: every blocking wait of serverHandshake/clientHandshake and their reader goroutines has a ctx.Done() or timer case (before the connection is handed out only the constructor context can end it). ORDER also (fix f9b15b2): before cancel() the once body itself never runs through a transport callback - the FIN is sent by a helper goroutine that Close waits for with the FIN timeout as alternative and joins after cancel() (a callback can block on a mutex that only cancel() releases). LOCKBAL: no mailbox callback returns holding its per-direction mutex. LIFE also: every error leg of gbn.NewClientConn/NewServerConn after the handshake call passes Close() (the attempt's context is cancelled, its reader goroutine and relay stream are released). ORDER also: every path through mailbox Server.Close closes quit and calls cancel() (an Accept still inside the gbn handshake is woken). Not decided: the numeric bound on Close, what the peer observes, goroutines inside dependencies.",
+		"ONCE: the whole effectful body of GoBackNConn.Close, ClientConn.Close and ServerConn.Close is the closure passed to sync.Once.Do. ORDER (gbn): close(quit) dominates everything else; the FIN is attempted on the leg where the peer has not closed, with a context from context.WithTimeout(g.ctx); no path leads from cancel() to the FIN send and every path to cancel() on that leg passes it; cancel() and sendQueue.stop() dominate wg.Wait(); every ticker Stop is dominated by wg.Wait(). EXIT: every potentially unbounded wait in gbn (blocking select, bare channel send/receive, WaitGroup.Wait, transport callback) has a termination alternative: a case on a quit field / ctx.Done() / a channel the parent closes on return whose body leaves the wait, or a timer; bare sends are on buffered channels outside cycles; Waits are dominated by the close that terminates the waited goroutines; transport callbacks receive g.ctx or a context derived from it and ctx/cancel come from one context.WithCancel; Send/Recv return errors on quit; the mailbox transport callbacks and their reconnect helpers poll the context parameter in every loop (returning leg) and pass exactly that context on; FIN receipt closes remoteClosed and returns an error; both loop wrappers call wg.Done() before an unconditional Close(). LIFE: every go statement in gbn is WaitGroup-tracked (Add before go, deferred Done, Wait in the owner's close path) or self-terminating by EXIT; every ticker/timer created is stopped on the close path (on the non-nil leg) or by a defer; a replaced ticker is stopped first. ONCE also: no return of any of the three Close methods is reachable without passing closeOnce.Do (no fast path that returns while a shutdown started elsewhere is still running). EXIT handshake: every blocking wait of serverHandshake/clientHandshake and their reader goroutines has a ctx.Done() or timer case (before the connection is handed out only the constructor context can end it). ORDER also (fix f9b15b2): before cancel() the once body itself never runs through a transport callback - the FIN is sent by a helper goroutine that Close waits for with the FIN timeout as alternative and joins after cancel() (a callback can block on a mutex that only cancel() releases). LOCKBAL: no mailbox callback returns holding its per-direction mutex. LIFE also: every error leg of gbn.NewClientConn/NewServerConn after the handshake call passes Close() (the attempt's context is cancelled, its reader goroutine and relay stream are released). ORDER also: every path through mailbox Server.Close closes quit and calls cancel() (an Accept still inside the gbn handshake is woken). EXIT also: newQueue makes queue.quit before it hands it to newSyncer, which stores it (the syncer waits on the channel queue.stop() closes). ORDER also: after a call through a struct's cancel field no call receives that struct's ctx. Not decided: the numeric bound on Close, what the peer observes, goroutines inside dependencies.",
 		[]string{"sync.Once.Do runs its argument at most once and blocks concurrent callers until it returned; a closed channel is always ready; context cancellation propagates to derived contexts; the transport callbacks honour their context"},
 		runC12)
 }
